@@ -6,11 +6,24 @@
 -/
 import PLS.Model.Index
 import PLS.Model.Cycles
+import PLS.Model.Scan
 import PLS.Generated
 import PLS.Spec.Pytest
 import Driver.Sexp
 namespace Driver
 open PLS
+
+/-- `glob::Pattern::matches` with default options on the pattern forms the generators use:
+    `*` and `**` match any run of characters (separators included), `?` one character. -/
+partial def globMatch : List Char → List Char → Bool
+  | [], [] => true
+  | [], _ => false
+  | '*' :: ps, s =>
+    let ps := ps.dropWhile (· == '*')
+    (List.range (s.length + 1)).any (fun k => globMatch ps (s.drop k))
+  | '?' :: ps, _ :: s => globMatch ps s
+  | p :: ps, c :: s => p == c && globMatch ps s
+  | _ :: _, [] => false
 
 def pathOf (s : String) : Path :=
   if s == "." then [] else (s.splitOn "/").filter (· != "")
@@ -61,6 +74,7 @@ structure CaseSt where
   asts : List (String × Option (List Stmt)) := []
   st : Index := {}
   pfx : Path := []
+  scanOrder : List Path := []
 
 def CaseSt.text (c : CaseSt) (tid : String) : Option String :=
   match c.texts.find? (·.1 == tid) with
@@ -347,6 +361,11 @@ def runOp (c : CaseSt) (t : List String) : String × CaseSt :=
       let (st, panicked) := Index.analyze c.pfx false c.st (pathOf p) v
       (if panicked then "PANIC" else "ok", { c with st := st })
   | ["close", p] => ("ok", { c with st := c.st.closeFile (pathOf p) })
+  | "scan" :: pats =>
+    let globs := pats.map (fun h => (unhexStr? h).getD "")
+    let excluded (f : Path) : Bool := globs.any (fun g => globMatch g.toList (showPath f).toList)
+    let rank (f : Path) : Nat := (c.scanOrder.findIdx? (· == f)).getD (c.scanOrder.length + 1)
+    ("ok", { c with st := c.st.scanNoVenv c.pfx excluded rank })
   | ["plugin", p] => ("ok", { c with st := { c.st with pluginFiles := c.st.pluginFiles ++ [pathOf p] } })
   | ["newdb"] =>
     ("ok", { c with st := { disk := c.st.disk, dirs := c.st.dirs } })
@@ -371,7 +390,9 @@ def step (c : CaseSt) (line : String) : Option String × CaseSt :=
     | some v => (none, { c with st := { st with disk := ainsert st.disk f v } })
     | none =>
       -- not valid UTF-8: the file exists but cannot be read as text
-      (none, { c with st := { st with disk := ainsert st.disk f { text := "", parsed := none } } })
+      (none, { c with st := { st with disk := ainsert st.disk f { text := "\u0000unreadable", parsed := none } } })
+  | ["hint", "scanorder", o] =>
+    (none, { c with scanOrder := if o == "-" then [] else (o.splitOn ",").map pathOf })
   | ["mkdir", p] =>
     let d := pathOf p
     (none, { c with st := { c.st with dirs := addDirs c.st.dirs (d ++ ["x"]) } })
